@@ -745,16 +745,17 @@ Definition with_angle_ok (is_180 : bool) (c s : Z) : bool :=
 Open Scope string_scope.
 Definition recorded : list (string * string * string * string) := [
   ("core/src/geometry/point.rs", "Point::abs", ".abs .abs", "point_abs_ok");
-  ("core/src/geometry/point.rs", "Point::sub_size", "as:i32 as:i32 debug_assert! 0 debug_assert! 0 sub sub", "point_sub_size_ok");
+  ("core/src/geometry/point.rs", "Point::sub_size", "as:i32 as:i32 debug_assert! cmp:>= 0 debug_assert! cmp:>= 0 sub sub", "point_sub_size_ok");
   ("core/src/geometry/point.rs", "Point::component_mul", "mul mul", "point_component_mul_ok");
   ("core/src/geometry/point.rs", "Point::component_div", "div div", "point_component_div_ok");
   ("core/src/geometry/point.rs", "Add for Point::add", "add add", "point_add_ok");
-  ("core/src/geometry/point.rs", "Add for Point::add#2", "as:i32 as:i32 debug_assert! 0 debug_assert! 0 add add", "point_add_size_ok");
+  ("core/src/geometry/point.rs", "Add for Point::add#2", "as:i32 as:i32 debug_assert! cmp:>= 0 debug_assert! cmp:>= 0 add add", "point_add_size_ok");
   ("core/src/geometry/point.rs", "AddAssign for Point::add_assign", "add= add=", "point_add_ok");
-  ("core/src/geometry/point.rs", "AddAssign for Point::add_assign#2", "as:i32 as:i32 debug_assert! 0 debug_assert! 0 add= add=", "point_add_size_ok");
+  ("core/src/geometry/point.rs", "AddAssign for Point::add_assign#2", "as:i32 as:i32 debug_assert! cmp:>= 0 debug_assert! cmp:>= 0 add= add=", "point_add_size_ok");
   ("core/src/geometry/point.rs", "Sub for Point::sub", "sub sub", "point_sub_ok");
+  ("core/src/geometry/point.rs", "Sub for Point::sub#2", ".sub_size( )", "point_sub_size_ok");
   ("core/src/geometry/point.rs", "SubAssign for Point::sub_assign", "sub= sub=", "point_sub_ok");
-  ("core/src/geometry/point.rs", "SubAssign for Point::sub_assign#2", "as:i32 as:i32 debug_assert! 0 debug_assert! 0 sub= sub=", "point_sub_size_ok");
+  ("core/src/geometry/point.rs", "SubAssign for Point::sub_assign#2", "as:i32 as:i32 debug_assert! cmp:>= 0 debug_assert! cmp:>= 0 sub= sub=", "point_sub_size_ok");
   ("core/src/geometry/point.rs", "Mul for Point::mul", "mul mul", "point_mul_ok");
   ("core/src/geometry/point.rs", "MulAssign for Point::mul_assign", "mul= mul=", "point_mul_ok");
   ("core/src/geometry/point.rs", "Div for Point::div", "div div", "point_div_ok");
@@ -782,46 +783,121 @@ Definition recorded : list (string * string * string * string) := [
   ("core/src/geometry/size.rs", "SubAssign for Size::sub_assign", "sub= sub=", "size_sub_ok");
   ("core/src/geometry/size.rs", "Mul for Size::mul", "mul mul", "size_mul_ok");
   ("core/src/geometry/size.rs", "MulAssign for Size::mul_assign", "mul= mul=", "size_mul_ok");
+  ("core/src/geometry/size.rs", "Div for Size::div", ".div_u32( )", "size_div_ok");
   ("core/src/geometry/size.rs", "DivAssign for Size::div_assign", "div= div=", "size_div_ok");
   ("core/src/geometry/size.rs", "Index for Size::index", "0 1 panic!", "point_index_ok");
   ("core/src/geometry/size.rs", "From for Size::from#2", "index 0 index 1", "from_array2_ok");
   ("core/src/geometry/size.rs", "From for Size::from#3", "index 0 index 1", "from_array2_ok");
   ("core/src/geometry/size.rs", "From for Size::from#4", "index 0 index 1", "from_array2_ok");
   ("core/src/geometry/size.rs", "From for Size::from#5", "index 0 index 1", "from_array2_ok");
-  ("core/src/primitives/rectangle/mod.rs", "center_offset", ".saturating_sub( 1 ) 2", "center_offset_ok");
+  ("core/src/primitives/rectangle/mod.rs", "center_offset", ".saturating_sub( 1 ) .div_u32( 2 )", "center_offset_ok");
+  ("core/src/primitives/rectangle/mod.rs", "Rectangle::with_center", ".sub_size( )", "with_center_ok");
   ("core/src/primitives/rectangle/mod.rs", "Rectangle::center", "add", "center_ok");
-  ("core/src/primitives/rectangle/mod.rs", "Rectangle::bottom_right", "0 0 add sub 1 1", "bottom_right_ok");
+  ("core/src/primitives/rectangle/mod.rs", "Rectangle::bottom_right", "cmp:> 0 cmp:> 0 add sub 1 1", "bottom_right_ok");
   ("core/src/primitives/rectangle/mod.rs", "Rectangle::resize_width_mut", ".saturating_as 1 sub .saturating_as 1 add= 0 div 2", "resized_width_ok");
   ("core/src/primitives/rectangle/mod.rs", "Rectangle::resize_height_mut", ".saturating_as 1 sub .saturating_as 1 add= 0 div 2", "resized_height_ok");
-  ("core/src/primitives/rectangle/mod.rs", "Rectangle::offset", "0 .saturating_add( as:u32 mul 2 ) .saturating_sub( ( neg ) as:u32 mul 2 )", "offset_ok");
+  ("core/src/primitives/rectangle/mod.rs", "Rectangle::offset", "cmp:>= 0 .saturating_add( as:u32 mul 2 ) .saturating_sub( ( neg ) as:u32 mul 2 )", "offset_ok");
   ("core/src/primitives/rectangle/mod.rs", "Rectangle::anchor_x", ".saturating_as 1 sub 1 add 0 div 2", "anchor_x_ok");
   ("core/src/primitives/rectangle/mod.rs", "Rectangle::anchor_y", ".saturating_as 1 sub 1 add 0 div 2", "anchor_y_ok");
   ("core/src/primitives/rectangle/mod.rs", "Rectangle::rows", ".saturating_add( .saturating_as )", "rows_columns_ok");
   ("core/src/primitives/rectangle/mod.rs", "Rectangle::columns", ".saturating_add( .saturating_as )", "rows_columns_ok");
+  ("core/src/primitives/rectangle/mod.rs", "Rectangle::is_zero_sized", "cmp:== 0 cmp:== 0", "comparisons with literals only (guards; no panic site)");
+  ("core/src/pixelcolor/raw/load_store.rs", "bit_position", "8 div div rem ( sub 1 ) sub ( rem ) mul ( )", "by reference: C08_raw (Proofs/RawOverflow.v site lists)");
+  ("core/src/pixelcolor/raw/load_store.rs", "macro impl_load_store_bits", "( ) ( ) shr ( ) ( ) ( shl ) ( shl )", "by reference: C08_raw (Proofs/RawOverflow.v site lists)");
+  ("core/src/pixelcolor/raw/load_store.rs", "LoadStore for RawU16::load", ".checked_mul( 2 ) 0 2 .try_into .unwrap", "by reference: C08_raw (Proofs/RawOverflow.v site lists)");
+  ("core/src/pixelcolor/raw/load_store.rs", "LoadStore for RawU16::store", ".checked_mul( 2 ) 0 2 .copy_from_slice( )", "by reference: C08_raw (Proofs/RawOverflow.v site lists)");
+  ("core/src/pixelcolor/raw/load_store.rs", "LoadStore for RawU24::load", ".checked_mul( 3 ) 0 3 3 .try_into .unwrap 0u8 4 index 1 4 .copy_from_slice( ) index 0 3 .copy_from_slice( )", "by reference: C08_raw (Proofs/RawOverflow.v site lists)");
+  ("core/src/pixelcolor/raw/load_store.rs", "LoadStore for RawU24::store", "index 1 index 2 index 3 index 0 index 1 index 2 .checked_mul( 3 ) 0 3 .copy_from_slice( )", "by reference: C08_raw (Proofs/RawOverflow.v site lists)");
+  ("core/src/pixelcolor/raw/load_store.rs", "LoadStore for RawU32::load", ".checked_mul( 4 ) 0 4 .try_into .unwrap", "by reference: C08_raw (Proofs/RawOverflow.v site lists)");
+  ("core/src/pixelcolor/raw/load_store.rs", "LoadStore for RawU32::store", ".checked_mul( 4 ) 0 4 .copy_from_slice( )", "by reference: C08_raw (Proofs/RawOverflow.v site lists)");
   ("src/geometry/mod.rs", "PointExt for Point::rotate_90", "neg", "rotate_90_ok");
   ("src/geometry/mod.rs", "PointExt for Point::dot_product", "mul add mul", "dot_product_ok");
   ("src/geometry/mod.rs", "PointExt for Point::determinant", "mul sub mul", "determinant_ok");
   ("src/geometry/mod.rs", "PointExt for Point::length_squared", ".pow( 2 ) add .pow( 2 )", "length_squared_ok");
+  ("src/geometry/angle.rs", "Angle::from_degrees", "( mul div f180.0 )", "Real / f32 arithmetic on angles (external: f32 cannot panic; I16F16: search only, p_fixed_point)");
+  ("src/geometry/angle.rs", "Angle::abs", "0 .abs", "Real / f32 arithmetic on angles (external: f32 cannot panic; I16F16: search only, p_fixed_point)");
+  ("src/geometry/angle.rs", "Angle::normalize", "0 .rem_euclid( ( f2.0 mul ) )", "Real / f32 arithmetic on angles (external: f32 cannot panic; I16F16: search only, p_fixed_point)");
+  ("src/geometry/angle.rs", "Angle::to_degrees", "0 f180.0 mul div", "Real / f32 arithmetic on angles (external: f32 cannot panic; I16F16: search only, p_fixed_point)");
+  ("src/geometry/angle.rs", "Trigonometry for Angle::tan", "0 .abs f20000000.0", "Real / f32 arithmetic on angles (external: f32 cannot panic; I16F16: search only, p_fixed_point)");
+  ("src/geometry/angle.rs", "Trigonometry for Angle::sin#2", "91 0 1144 2287 3430 4572 5712 6850 7987 9121 10252 11380 12505 13626 14742 15855 16962 18064 19161 20252 21336 22415 23486 24550 25607 26656 27697 28729 29753 30767 31772 32768 33754 34729 35693 36647 37590 38521 39441 40348 41243 42126 42995 43852 44695 45525 46341 47143 47930 48703 49461 50203 50931 51643 52339 53020 53684 54332 54963 55578 56175 56756 57319 57865 58393 58903 59396 59870 60326 60764 61183 61584 61966 62328 62672 62997 63303 63589 63856 64104 64332 64540 64729 64898 65048 65177 65287 65376 65446 65496 65526 65536 ( Real::from( 180 ) mul 0 div ) .rem_euclid( 360 ) as:usize cmp:<= 90 index cmp:<= 180 index 180 sub cmp:<= 270 neg index sub 180 neg index 360 sub", "Real / f32 arithmetic on angles (external: f32 cannot panic; I16F16: search only, p_fixed_point)");
+  ("src/geometry/angle.rs", "Trigonometry for Angle::cos#2", "( add )", "Real / f32 arithmetic on angles (external: f32 cannot panic; I16F16: search only, p_fixed_point)");
+  ("src/geometry/angle.rs", "Trigonometry for Angle::tan#2", "div", "Real / f32 arithmetic on angles (external: f32 cannot panic; I16F16: search only, p_fixed_point)");
+  ("src/geometry/angle.rs", "Add for Angle::add", "0 add 0", "Real / f32 arithmetic on angles (external: f32 cannot panic; I16F16: search only, p_fixed_point)");
+  ("src/geometry/angle.rs", "AddAssign for Angle::add_assign", "0 add= 0", "Real / f32 arithmetic on angles (external: f32 cannot panic; I16F16: search only, p_fixed_point)");
+  ("src/geometry/angle.rs", "Sub for Angle::sub", "0 sub 0", "Real / f32 arithmetic on angles (external: f32 cannot panic; I16F16: search only, p_fixed_point)");
+  ("src/geometry/angle.rs", "SubAssign for Angle::sub_assign", "0 sub= 0", "Real / f32 arithmetic on angles (external: f32 cannot panic; I16F16: search only, p_fixed_point)");
+  ("src/geometry/angle.rs", "Neg for Angle::neg", "neg 0", "Real / f32 arithmetic on angles (external: f32 cannot panic; I16F16: search only, p_fixed_point)");
+  ("src/geometry/real.rs", "mod real_impl::const TAU", "f2.0 mul", "Real / f32 arithmetic (external: f32 cannot panic; I16F16: search only, p_fixed_point)");
+  ("src/geometry/real.rs", "mod real_impl::From for Real::from#2", "as:f32", "Real / f32 arithmetic (external: f32 cannot panic; I16F16: search only, p_fixed_point)");
+  ("src/geometry/real.rs", "mod real_impl::From for Real::from#3", "as:f32", "Real / f32 arithmetic (external: f32 cannot panic; I16F16: search only, p_fixed_point)");
+  ("src/geometry/real.rs", "mod real_impl::From for i32::from", "0 as:i32", "Real / f32 arithmetic (external: f32 cannot panic; I16F16: search only, p_fixed_point)");
+  ("src/geometry/real.rs", "mod real_impl::From for u32::from", "0 as:u32", "Real / f32 arithmetic (external: f32 cannot panic; I16F16: search only, p_fixed_point)");
+  ("src/geometry/real.rs", "Add for Real::add", "0 add 0", "Real / f32 arithmetic (external: f32 cannot panic; I16F16: search only, p_fixed_point)");
+  ("src/geometry/real.rs", "AddAssign for Real::add_assign", "0 add= 0", "Real / f32 arithmetic (external: f32 cannot panic; I16F16: search only, p_fixed_point)");
+  ("src/geometry/real.rs", "Sub for Real::sub", "0 sub 0", "Real / f32 arithmetic (external: f32 cannot panic; I16F16: search only, p_fixed_point)");
+  ("src/geometry/real.rs", "SubAssign for Real::sub_assign", "0 sub= 0", "Real / f32 arithmetic (external: f32 cannot panic; I16F16: search only, p_fixed_point)");
+  ("src/geometry/real.rs", "Neg for Real::neg", "neg 0", "Real / f32 arithmetic (external: f32 cannot panic; I16F16: search only, p_fixed_point)");
+  ("src/geometry/real.rs", "Mul for Real::mul", "0 mul 0", "Real / f32 arithmetic (external: f32 cannot panic; I16F16: search only, p_fixed_point)");
+  ("src/geometry/real.rs", "MulAssign for Real::mul_assign", "0 mul= 0", "Real / f32 arithmetic (external: f32 cannot panic; I16F16: search only, p_fixed_point)");
+  ("src/geometry/real.rs", "Div for Real::div", "0 div 0", "Real / f32 arithmetic (external: f32 cannot panic; I16F16: search only, p_fixed_point)");
+  ("src/geometry/real.rs", "DivAssign for Real::div_assign", "0 div= 0", "Real / f32 arithmetic (external: f32 cannot panic; I16F16: search only, p_fixed_point)");
+  ("src/geometry/real.rs", "Real::abs", "0 .abs", "Real / f32 arithmetic (external: f32 cannot panic; I16F16: search only, p_fixed_point)");
+  ("src/geometry/real.rs", "Real::rem_euclid", "0 rem 0 f0.0 add .abs", "Real / f32 arithmetic (external: f32 cannot panic; I16F16: search only, p_fixed_point)");
   ("src/primitives/primitive_style.rs", "PrimitiveStyle::outside_stroke_width", "0 div 2", "stroke_widths_ok");
   ("src/primitives/primitive_style.rs", "PrimitiveStyle::inside_stroke_width", ".saturating_add( 1 ) div 2 0", "stroke_widths_ok");
-  ("src/primitives/primitive_style.rs", "PrimitiveStyle::stroke_area", ".saturating_as", "rect_stroke_area_ok");
-  ("src/primitives/primitive_style.rs", "PrimitiveStyle::fill_area", "neg .saturating_as 0", "rect_fill_area_ok");
+  ("src/primitives/primitive_style.rs", "PrimitiveStyle::is_transparent", "( cmp:== 0 )", "comparisons with literals only (guards; no panic site)");
+  ("src/primitives/primitive_style.rs", "PrimitiveStyle::effective_stroke_color", "cmp:> 0", "comparisons with literals only (guards; no panic site)");
+  ("src/primitives/primitive_style.rs", "PrimitiveStyle::stroke_area", ".saturating_as .offset( )", "rect_stroke_area_ok");
+  ("src/primitives/primitive_style.rs", "PrimitiveStyle::fill_area", "neg .saturating_as 0 .offset( )", "rect_fill_area_ok");
+  ("src/primitives/rectangle/mod.rs", "OffsetOutline for Rectangle::offset", "cmp:>= 0 .saturating_add( as:u32 mul 2 ) .saturating_sub( ( neg ) as:u32 mul 2 )", "offset_ok");
+  ("src/primitives/rectangle/mod.rs", "Transform for Rectangle::translate", "add", "point_add_ok");
+  ("src/primitives/rectangle/mod.rs", "Transform for Rectangle::translate_mut", "add=", "point_add_ok");
+  ("src/primitives/rectangle/styled.rs", "dot_positions_with_dotted_corners", "( add ) div ( 2 mul ) Real::from( ) div Real::from( ) 0 1 sub 1 ( mul Real::from( ) )", "Overflow2.rect_dotted_int_ok (integer part; the positions are Real arithmetic: search only, p_fixed_point)");
+  ("src/primitives/rectangle/styled.rs", "draw_dotted_rectangle_border_with_dotted_corners", "0 0 add 0 0 add ( )", "Overflow2.rect_dotted_int_ok");
+  ("src/primitives/rectangle/styled.rs", "dot_positions_in_clockwise_order", "div ( 2 mul ) cmp:!= 0 Real::from( ) div Real::from( ) Real::from( 0 ) 0 ( mul Real::from( ) )", "Overflow2.rect_dotted_int_ok (integer part; the positions are Real arithmetic: search only, p_fixed_point)");
+  ("src/primitives/rectangle/styled.rs", "draw_dotted_rectangle_border_in_clockwise_order", "index rem 2 .unsigned_abs div as:i32 mul ( )", "Overflow2.rect_dotted_int_ok");
+  ("src/primitives/rectangle/styled.rs", "StyledDrawable for Rectangle::draw_styled", "( ) div 2 div 2 cmp:== 0 ( ) sub cmp:< 4 4 4 index 0 add= index 1 add= index 2 sub= index 3 sub= div 2 sub add 0 .saturating_sub( ) cmp:> 0 add ( mul 2 ) add 1 div 2 .saturating_sub( ) as:i32 0 ( )", "Overflow2.rect_solid_borders_ok, Overflow2.rect_dotted_int_ok");
+  ("src/primitives/rectangle/styled.rs", "StyledDimensions for Rectangle::styled_bounding_box", ".saturating_as .offset( )", "rect_stroke_area_ok (offset of the bounding box by the outside stroke width)");
   ("src/primitives/circle/mod.rs", "Circle::center_2x", ".saturating_sub( 1 ) mul 2 add", "circle_center_2x_ok");
-  ("src/primitives/circle/mod.rs", "OffsetOutline for Circle::offset", "0 .saturating_add( 2 mul as:u32 ) .saturating_sub( 2 mul ( neg ) as:u32 )", "circle_offset_ok");
-  ("src/primitives/circle/mod.rs", "ContainsPoint for Circle::contains", "sub mul 2 as:u32", "circle_contains_ok");
+  ("src/primitives/circle/mod.rs", "OffsetOutline for Circle::offset", "cmp:>= 0 .saturating_add( 2 mul as:u32 ) .saturating_sub( 2 mul ( neg ) as:u32 )", "circle_offset_ok");
+  ("src/primitives/circle/mod.rs", "ContainsPoint for Circle::contains", "sub mul 2 .length_squared as:u32", "circle_contains_ok");
   ("src/primitives/circle/mod.rs", "Transform for Circle::translate", "add", "point_add_ok");
   ("src/primitives/circle/mod.rs", "Transform for Circle::translate_mut", "add=", "point_add_ok");
-  ("src/primitives/circle/mod.rs", "diameter_to_threshold", "4 .pow( 2 ) sub div 2 .pow( 2 )", "diameter_to_threshold_ok");
-  ("src/primitives/ellipse/mod.rs", "OffsetOutline for Ellipse::offset", "0 .saturating_add( 2 mul as:u32 ) .saturating_sub( 2 mul ( neg ) as:u32 )", "ellipse_offset_ok");
+  ("src/primitives/circle/mod.rs", "diameter_to_threshold", "cmp:<= 4 .pow( 2 ) sub div 2 .pow( 2 )", "diameter_to_threshold_ok");
+  ("src/primitives/circle/points.rs", "Iterator for Scanlines::next", "mul 2 sub ( .length_squared as:u32 ) sub ( sub )", "Overflow2.scan_probe_ok, Overflow2.scan_shorten_ok");
+  ("src/primitives/circle/styled.rs", "StyledDimensions for Circle::styled_bounding_box", ".saturating_as .offset( )", "rect_stroke_area_ok (offset of the bounding box by the outside stroke width)");
+  ("src/primitives/circle/styled.rs", "Iterator for StyledScanlines::next", "mul 2 sub ( .length_squared as:u32 ) sub ( sub )", "Overflow2.scan_probe_ok, Overflow2.scan_shorten_ok");
+  ("src/primitives/ellipse/mod.rs", "OffsetOutline for Ellipse::offset", "cmp:>= 0 .saturating_add( 2 mul as:u32 ) .saturating_sub( 2 mul ( neg ) as:u32 )", "ellipse_offset_ok");
   ("src/primitives/ellipse/mod.rs", "center_2x", ".saturating_sub( 1 1 ) mul 2 add", "ellipse_center_2x_ok");
   ("src/primitives/ellipse/mod.rs", "ContainsPoint for Ellipse::contains", "mul 2 sub", "ellipse_contains_ok");
   ("src/primitives/ellipse/mod.rs", "Transform for Ellipse::translate", "add", "point_add_ok");
   ("src/primitives/ellipse/mod.rs", "Transform for Ellipse::translate_mut", "add=", "point_add_ok");
   ("src/primitives/ellipse/mod.rs", "EllipseContains::new", "( as:u64 ) .pow( 2 ) ( as:u64 ) .pow( 2 ) as:u64 mul", "ellipse_contains_new_ok");
   ("src/primitives/ellipse/mod.rs", "EllipseContains::contains", "( as:i64 ) .pow( 2 ) as:u64 ( as:i64 ) .pow( 2 ) as:u64 add mul add mul", "ellipse_contains_point_ok");
+  ("src/primitives/ellipse/points.rs", "Iterator for Scanlines::next", "mul 2 sub mul 2 sub sub ( sub )", "Overflow2.ellipse_scan_row_ok, Overflow2.ellipse_scan_probe_ok, Overflow2.scan_shorten_ok");
+  ("src/primitives/ellipse/styled.rs", "StyledDimensions for Ellipse::styled_bounding_box", ".saturating_as .offset( )", "rect_stroke_area_ok (offset of the bounding box by the outside stroke width)");
+  ("src/primitives/ellipse/styled.rs", "Iterator for StyledScanlines::next", "mul 2 sub mul 2 sub sub ( sub )", "Overflow2.ellipse_scan_row_ok, Overflow2.ellipse_scan_probe_ok, Overflow2.scan_shorten_ok");
+  ("src/primitives/rounded_rectangle/mod.rs", "RoundedRectangle::get_confined_corner_quadrant", "add sub add sub add sub", "Overflow2.confined_quadrant_ok");
+  ("src/primitives/rounded_rectangle/mod.rs", "OffsetOutline for RoundedRectangle::offset", ".offset( ) cmp:>= 0 as:u32 .saturating_add( ) .saturating_add( ) .saturating_add( ) .saturating_add( ) ( neg ) as:u32 .saturating_sub( ) .saturating_sub( ) .saturating_sub( ) .saturating_sub( )", "Overflow2.rrect_offset_ok");
+  ("src/primitives/rounded_rectangle/mod.rs", "RoundedRectangleContains::new", "( add as:i32 ) ( sub as:i32 ) ( add as:i32 ) ( sub as:i32 )", "Overflow2.rrect_contains_new_ok (contains: Overflow2.rrect_contains_ok)");
+  ("src/primitives/rounded_rectangle/points.rs", "Iterator for Scanlines::next", "add 1", "Overflow2.rrect_scan_end_ok (and ellipse_quadrant_contains_ok)");
+  ("src/primitives/rounded_rectangle/styled.rs", "StyledDimensions for RoundedRectangle::styled_bounding_box", ".saturating_as .offset( )", "rect_stroke_area_ok (offset of the bounding box by the outside stroke width)");
+  ("src/primitives/rounded_rectangle/styled.rs", "Iterator for StyledScanlines::next", "add 1", "Overflow2.rrect_scan_end_ok (and ellipse_quadrant_contains_ok)");
   ("src/primitives/rounded_rectangle/ellipse_quadrant.rs", "EllipseQuadrant::new", "sub sub sub mul 2 mul 2", "ellipse_quadrant_new_ok");
   ("src/primitives/rounded_rectangle/ellipse_quadrant.rs", "ContainsPoint for EllipseQuadrant::contains", "mul 2 sub", "ellipse_quadrant_contains_ok");
-  ("src/primitives/rounded_rectangle/corner_radii.rs", "CornerRadii::confine", "0 0 add add add add ( ) ( ) ( ) ( ) ( 0 u64::from( ) mul u64::from( ) u64::from( ) mul u64::from( ) ) 0 ( mul ) div ( mul ) div ( mul ) div ( mul ) div", "confine_ok");
+  ("src/primitives/rounded_rectangle/corner_radii.rs", "CornerRadii::confine", "0 0 add add add add ( ) ( ) ( ) ( ) ( cmp:== 0 u64::from( ) mul u64::from( ) u64::from( ) mul u64::from( ) ) cmp:> 0 ( mul ) div ( mul ) div ( mul ) div ( mul ) div", "confine_ok");
+  ("src/primitives/arc/mod.rs", "Transform for Arc::translate", "add", "point_add_ok");
+  ("src/primitives/arc/mod.rs", "Transform for Arc::translate_mut", "add=", "point_add_ok");
+  ("src/primitives/arc/points.rs", "Points::new", ".offset( neg 1 )", "circle_offset_ok (offset -1)");
+  ("src/primitives/arc/styled.rs", "StyledPixelsIterator::new", ".offset( .saturating_as ) .offset( neg .saturating_as )", "circle_offset_ok (stroke and fill area offsets)");
+  ("src/primitives/arc/styled.rs", "StyledDimensions for Arc::styled_bounding_box", ".saturating_as .offset( )", "rect_stroke_area_ok (offset of the bounding box by the outside stroke width)");
+  ("src/primitives/sector/mod.rs", "Sector::center_2x", ".saturating_sub( 1 ) mul 2 add", "circle_center_2x_ok");
+  ("src/primitives/sector/mod.rs", "OffsetOutline for Sector::offset", ".offset( )", "circle_offset_ok");
+  ("src/primitives/sector/mod.rs", "ContainsPoint for Sector::contains", "mul 2 sub", "Overflow2.sector_contains_ok");
+  ("src/primitives/sector/mod.rs", "Transform for Sector::translate", "add", "point_add_ok");
+  ("src/primitives/sector/mod.rs", "Transform for Sector::translate_mut", "add=", "point_add_ok");
+  ("src/primitives/sector/styled.rs", "StyledPixelsIterator::new", ".saturating_as .saturating_as mul mul 2 sub mul mul 2 add .abs f55.0 f360.0 sub f55.0 f360.0 add div f2.0 neg mul mul 4 ( add ) ( sub )", "Overflow2.sector_thresholds_ok (integer part; the bevel angles are Real arithmetic: search only)");
+  ("src/primitives/sector/styled.rs", "StyledDimensions for Sector::styled_bounding_box", ".saturating_as .offset( )", "rect_stroke_area_ok (offset of the bounding box by the outside stroke width)");
   ("src/primitives/line/mod.rs", "Line::with_delta", "add add", "point_add_ok");
   ("src/primitives/line/mod.rs", "Line::perpendicular", "sub neg add", "perpendicular_ok");
   ("src/primitives/line/mod.rs", "Line::extents", ".saturating_as add ( ) ( ) ( ) ( ) ( ) ( ) ( ) ( ) ( ) ( ) 0 0 sub add sub 1 add sub 1 ( )", "OverflowWalk.extents_ok");
@@ -829,51 +905,110 @@ Definition recorded : list (string * string * string * string) := [
   ("src/primitives/line/mod.rs", "Line::delta", "sub", "line_delta_ok");
   ("src/primitives/line/mod.rs", "Transform for Line::translate", "add add", "point_add_ok");
   ("src/primitives/line/mod.rs", "Transform for Line::translate_mut", "add= add=", "point_add_ok");
-  ("src/primitives/line/points.rs", "Iterator for Points::next", "0 sub= 1", "line_points_ok");
-  ("src/primitives/line/bresenham.rs", "BresenhamParameters::new", "sub 0 1 neg 1 0 1 neg 1 .abs ( ) ( ) ( ) 2 mul 2 mul", "bparams_new_ok");
+  ("src/primitives/line/points.rs", "Iterator for Points::next", "cmp:> 0 sub= 1", "line_points_ok");
+  ("src/primitives/line/styled.rs", "StyledPixelsIterator::new", ".saturating_as", "styled_line_new_ok");
+  ("src/primitives/line/bresenham.rs", "BresenhamParameters::new", "sub cmp:>= 0 1 neg 1 cmp:>= 0 1 neg 1 .abs ( ) ( ) ( ) 2 mul 2 mul", "bparams_new_ok");
   ("src/primitives/line/bresenham.rs", "BresenhamParameters::increase_error", "add= sub=", "increase_error_ok");
   ("src/primitives/line/bresenham.rs", "BresenhamParameters::decrease_error", "sub= neg add=", "decrease_error_ok");
-  ("src/primitives/line/bresenham.rs", "BresenhamParameters::mirror_extra_points", "0 neg", "next_all_ok");
+  ("src/primitives/line/bresenham.rs", "BresenhamParameters::mirror_extra_points", "cmp:!= 0 neg", "next_all_ok");
   ("src/primitives/line/bresenham.rs", "Bresenham::next", "add= sub= add= add=", "bnext_ok");
   ("src/primitives/line/bresenham.rs", "Bresenham::next_all", "add= sub= add= sub= add= add=", "next_all_ok");
   ("src/primitives/line/bresenham.rs", "Bresenham::previous_all", "neg sub= add= sub= add= sub= sub=", "previous_all_ok");
   ("src/primitives/line/bresenham.rs", "major_length", "( sub ) .abs as:u32 add 1", "major_length_ok");
   ("src/primitives/line/thick_points.rs", "ParallelsIterator::new", "i64::from( ) .pow( 2 ) add i64::from( ) .pow( 2 ) ( i64::from( ) mul 2 ) .pow( 2 ) mul ( add ) div 2 neg 0 0 .swap", "parallels_new_ok, OverflowWalk.parallels_new_so_ok");
   ("src/primitives/line/thick_points.rs", "Iterator for ParallelsIterator::next", "i64::from( ) .pow( 2 ) ( ) add= ( ) add= ( ) .swap", "parallels_next_ok, OverflowWalk.parallels_step_ok");
-  ("src/primitives/line/thick_points.rs", "Iterator for ThickPoints::next", "0 sub= 1 ( ) sub= 1", "thick_points_next_ok, OverflowWalk.thick_points_ok");
-  ("src/primitives/line/intersection_params.rs", "IntersectionParams::nearly_colinear_has_error", "i64::from( ) .pow( 2 ) i64::from( ) .abs", "nearly_colinear_ok");
-  ("src/primitives/line/intersection_params.rs", "IntersectionParams::intersection", "0 0 i64::from( ) ( ) 0 ( neg neg ) ( ) ( add div 2 ) .div_euclid( ) .saturating_as ( ) ( ) i64::from( 0 ) mul i64::from( 1 ) sub i64::from( 1 ) mul i64::from( 0 ) ( ) ( ) ( )", "ip_intersection_ok");
+  ("src/primitives/line/thick_points.rs", "Iterator for ThickPoints::next", "cmp:> 0 sub= 1 ( ) sub= 1", "thick_points_next_ok, OverflowWalk.thick_points_ok");
+  ("src/primitives/line/intersection_params.rs", "IntersectionParams::from_lines", ".determinant( )", "from_lines_ok");
+  ("src/primitives/line/intersection_params.rs", "IntersectionParams::nearly_colinear_has_error", "i64::from( ) .pow( 2 ) i64::from( .dot_product( ) ) .abs", "nearly_colinear_ok");
+  ("src/primitives/line/intersection_params.rs", "IntersectionParams::intersection", "cmp:== 0 cmp:< 0 i64::from( ) ( ) cmp:< 0 ( neg neg ) ( ) ( add div 2 ) .div_euclid( ) .saturating_as ( ) ( ) i64::from( 0 ) mul i64::from( 1 ) sub i64::from( 1 ) mul i64::from( 0 ) ( ) ( ) ( )", "ip_intersection_ok");
+  ("src/primitives/polyline/mod.rs", "Dimensions for Polyline::bounding_box", "add i32::MAX i32::MAX add i32::MIN i32::MIN", "Overflow2.polyline_vertices_ok");
+  ("src/primitives/polyline/mod.rs", "Transform for Polyline::translate", "add", "point_add_ok");
+  ("src/primitives/polyline/mod.rs", "Transform for Polyline::translate_mut", "add=", "point_add_ok");
+  ("src/primitives/polyline/points.rs", "Points::new", "( ) add add", "Overflow2.polyline_vertices_ok");
+  ("src/primitives/polyline/points.rs", "Iterator for Points::next", "( ) add add .nth( 1 )", "Overflow2.polyline_vertices_ok (and line_points_ok)");
+  ("src/primitives/polyline/scanline_iterator.rs", "ScanlineIterator::new", "debug_assert! cmp:> 1", "debug_assert!(vertices.len() > 1): guarded by the caller (styled.rs draws thick polylines only with > 1 vertices); search only");
+  ("src/primitives/polyline/scanline_iterator.rs", "ScanlineIterator::empty", "0i32 0 0", "literals only");
+  ("src/primitives/polyline/styled.rs", "untranslated_bounding_box", "cmp:> 1 ( ) ( i32::MAX i32::MIN ) ( ) ( )", "min / max fold from i32::MAX / i32::MIN (no arithmetic); with_corners_ok");
+  ("src/primitives/polyline/styled.rs", "StyledPixelsIterator::new", "cmp:<= 1 0", "comparisons with literals only (guards; no panic site)");
+  ("src/primitives/polyline/styled.rs", "Iterator for StyledPixelsIterator::next", "add", "Overflow2.polyline_vertices_ok (point + translate)");
   ("src/primitives/common/linear_equation.rs", "const NORMAL_VECTOR_SCALE", "1 shl 10", "constant item, evaluated by rustc");
-  ("src/primitives/common/linear_equation.rs", "LinearEquation::distance", "sub", "le_point_distance_ok");
-  ("src/primitives/common/linear_equation.rs", "OriginLinearEquation::with_angle", "f180.0 0 neg i32::from( mul Real::from( ) ) i32::from( mul Real::from( ) )", "with_angle_ok");
+  ("src/primitives/common/linear_equation.rs", "LinearEquation::from_line", ".rotate_90 .dot_product( )", "from_line_ok");
+  ("src/primitives/common/linear_equation.rs", "LinearEquation::distance", ".dot_product( ) sub", "le_point_distance_ok");
+  ("src/primitives/common/linear_equation.rs", "LinearEquation::check_side", "cmp:<= 0 cmp:>= 0", "comparisons with literals only (guards; no panic site)");
+  ("src/primitives/common/linear_equation.rs", "OriginLinearEquation::with_angle", "f180.0 0 neg i32::from( mul Real::from( ) ) i32::from( mul Real::from( ) ) .rotate_90", "with_angle_ok");
+  ("src/primitives/common/linear_equation.rs", "OriginLinearEquation::distance", ".dot_product( )", "dot_product_ok (Overflow2.plane_sector_contains_ok)");
+  ("src/primitives/common/linear_equation.rs", "OriginLinearEquation::check_side", "cmp:<= 0 cmp:>= 0", "comparisons with literals only (guards; no panic site)");
   ("src/primitives/common/line_join.rs", "LineJoin::from_points", "( ) ( ) ( ) sub i64::from( ) .pow( 2 ) add i64::from( ) .pow( 2 ) ( i64::from( ) mul 2 ) .pow( 2 )", "miter_ok, join_edges_ok, OverflowWalk.join_from_points_ok");
-  ("src/primitives/triangle/mod.rs", "ContainsPoint for Triangle::contains", "mul sub mul add ( sub ) mul add ( sub ) mul mul sub mul add ( sub ) mul add ( sub ) mul ( 0 ) ( 0 ) 0 0 0 0 add 0 0 add", "triangle_contains_ok");
+  ("src/primitives/common/scanline.rs", "Scanline::extend", "add 1 add 1", "Overflow2.scanline_extend_ok");
+  ("src/primitives/common/scanline.rs", "Scanline::touches", "debug_assert_eq! sub 1 ( ) ( sub 1 ) sub 1 ( ) ( sub 1 )", "Overflow2.scanline_touches_ok");
+  ("src/primitives/common/scanline.rs", "Scanline::try_extend", "debug_assert_eq!", "Overflow2.scanline_touches_ok (debug_assert_eq!(self.y, other.y): callers pass scanlines of one row)");
+  ("src/primitives/common/scanline.rs", "Scanline::to_rectangle", "( sub ) as:u32 0 1", "Overflow2.scanline_width_ok");
+  ("src/primitives/common/scanline.rs", "Scanline::draw", "( ) ( sub ) as:u32 1", "Overflow2.scanline_width_ok");
+  ("src/primitives/common/distance_iterator.rs", "Iterator for DistanceIterator::next", "mul 2 sub .length_squared as:u32 ( )", "Overflow2.scan_probe_ok");
+  ("src/primitives/common/plane_sector.rs", "PlaneSector::new", ".abs add", "Real arithmetic on angles (external; f32 cannot panic, I16F16: search only, p_fixed_point)");
+  ("src/primitives/common/plane_sector.rs", "PlaneSector::point_type", "neg neg", "Overflow2.point_type_ok");
+  ("src/primitives/common/thick_segment_iter.rs", "Iterator for ThickSegmentIter::next", "sub 2", "Overflow2.segment_iter_last_ok (and OverflowWalk.join_from_points_ok)");
+  ("src/primitives/common/closed_thick_segment_iter.rs", "ClosedThickSegmentIter::new", "3 1 3 .unwrap index 0 index 1 1", "Overflow2.closed_iter_new_ok");
+  ("src/primitives/common/closed_thick_segment_iter.rs", "Iterator for ClosedThickSegmentIter::next", "add= 1 sub 2", "Overflow2.closed_iter_next_ok");
+  ("src/primitives/triangle/mod.rs", "ContainsPoint for Triangle::contains", "mul sub mul add ( sub ) mul add ( sub ) mul mul sub mul add ( sub ) mul add ( sub ) mul ( cmp:< 0 ) ( cmp:< 0 ) cmp:== 0 cmp:< 0 cmp:<= 0 cmp:<= 0 add cmp:>= 0 cmp:>= 0 add", "triangle_contains_ok");
   ("src/primitives/triangle/mod.rs", "Triangle::from_slice", "panic!", "tri_from_slice_ok");
   ("src/primitives/triangle/mod.rs", "Triangle::area_doubled", "neg mul add mul ( sub ) add mul ( sub ) add mul", "area_doubled_ok");
   ("src/primitives/triangle/mod.rs", "Triangle::sorted_clockwise", "0 index 1 index 0 index 2", "sorted_clockwise_ok");
+  ("src/primitives/triangle/mod.rs", "Triangle::scanline_intersection", "cmp:== 0", "comparisons with literals only (guards; no panic site)");
   ("src/primitives/triangle/mod.rs", "Triangle::is_collapsed", "( ) index ( add 1 ) rem 3 index ( add 2 ) rem 3 1", "is_collapsed_step_ok");
   ("src/primitives/triangle/mod.rs", "Transform for Triangle::translate_mut", "add=", "point_add_ok");
+  ("src/primitives/triangle/scanline_intersections.rs", "ScanlineIntersections::new", "cmp:> 0", "comparisons with literals only (guards; no panic site)");
+  ("src/primitives/triangle/scanline_intersections.rs", "ScanlineIntersections::edge_intersections", "0 cmp:== 0 cmp:< 3 index rem 3 index ( add 1 ) rem 3 index ( add 2 ) rem 3 index ( add 1 ) rem 3 index ( add 2 ) rem 3 index ( add 3 ) rem 3 add= 1", "Overflow2.edge_intersections_ok");
+  ("src/primitives/triangle/scanline_iterator.rs", "ScanlineIterator::empty", "0i32 0 0", "literals only");
+  ("src/primitives/triangle/styled.rs", "StyledDimensions for Triangle::styled_bounding_box", "cmp:< 2 ( ) ( i32::MAX i32::MIN ) ( ) ( )", "min / max fold from i32::MAX / i32::MIN (no arithmetic); with_corners_ok");
+  ("src/mono_font/mod.rs", "MonoFont::glyph", "cmp:== 0 div as:u32 div ( sub ( mul ) ) mul mul as:i32 as:i32", "Overflow2.glyph_ok");
+  ("src/mono_font/mod.rs", "PartialEq for MonoFont::eq", "as:*constdynGlyphMappingas as:*constu8 as:*constdynGlyphMappingas as:*constu8", "pointer casts only (no panic site)");
+  ("src/mono_font/mod.rs", "DecorationDimensions::default_strikethrough", ".saturating_sub( 1 ) div 2 1", "saturating_sub, / 2: no panic site");
+  ("src/mono_font/mod.rs", "DecorationDimensions::default_underline", "add 1 1", "Overflow2.default_underline_ok");
+  ("src/mono_font/mod.rs", "DecorationDimensions::get_bounding_box", "add 0", "Overflow2.decoration_box_ok");
+  ("src/mono_font/mapping.rs", "StrGlyphMapping::ranges", "0 add= as:usize sub as:usize add 1 add= 1 ( )", "Overflow2.mapping_range_ok");
+  ("src/mono_font/mapping.rs", "macro impl_mapping", "( ( ( ) mul ( ) ) mul ) ( ( ) mul ) mul ( ) ( ) ( ) ( ( ) mul as:usize sub as:usize ) mul", "constant items, evaluated by rustc");
+  ("src/mono_font/draw_target.rs", "DrawTarget for MonoFontDrawTarget::draw_iter", "unreachable!", "unreachable!() in methods of the internal MonoFontDrawTarget that the crate never calls (search only)");
+  ("src/mono_font/draw_target.rs", "DrawTarget for MonoFontDrawTarget::clear", "unreachable!", "unreachable!() in methods of the internal MonoFontDrawTarget that the crate never calls (search only)");
+  ("src/mono_font/draw_target.rs", "DrawTarget for MonoFontDrawTarget::draw_iter#2", "unreachable!", "unreachable!() in methods of the internal MonoFontDrawTarget that the crate never calls (search only)");
+  ("src/mono_font/draw_target.rs", "DrawTarget for MonoFontDrawTarget::clear#2", "unreachable!", "unreachable!() in methods of the internal MonoFontDrawTarget that the crate never calls (search only)");
+  ("src/mono_font/draw_target.rs", "DrawTarget for MonoFontDrawTarget::draw_iter#3", "unreachable!", "unreachable!() in methods of the internal MonoFontDrawTarget that the crate never calls (search only)");
+  ("src/mono_font/draw_target.rs", "DrawTarget for MonoFontDrawTarget::clear#3", "unreachable!", "unreachable!() in methods of the internal MonoFontDrawTarget that the crate never calls (search only)");
   ("src/mono_font/mono_text_style.rs", "MonoTextStyle::line_elements", "as:i32 as:i32 add= ( ) add= ( ) ( )", "line_elements_ok");
+  ("src/mono_font/mono_text_style.rs", "MonoTextStyle::draw_string_binary", "cmp:> 0", "comparisons with literals only (guards; no panic site)");
   ("src/mono_font/mono_text_style.rs", "MonoTextStyle::baseline_offset", "0 .saturating_sub( 1 ) .saturating_as ( .saturating_sub( 1 ) div 2 ) .saturating_as .saturating_as", "baseline_offset_ok");
   ("src/mono_font/mono_text_style.rs", "TextRenderer for MonoTextStyle::draw_string", "sub 0 ( ) ( ) ( ) ( ) ( ) ( add ) mul as:u32 add 0 ( sub ) as:u32 add 0", "draw_string_plain_ok (and line_elements_ok)");
-  ("src/mono_font/mono_text_style.rs", "TextRenderer for MonoTextStyle::draw_whitespace", "sub 0 0 add .saturating_as", "draw_whitespace_ok");
+  ("src/mono_font/mono_text_style.rs", "TextRenderer for MonoTextStyle::draw_whitespace", "sub 0 cmp:!= 0 add .saturating_as", "draw_whitespace_ok");
   ("src/mono_font/mono_text_style.rs", "TextRenderer for MonoTextStyle::measure_string", "sub 0 ( as:u32 mul ( add ) ) .saturating_sub( ) ( add ) add", "measure_string_ok");
   ("src/text/mod.rs", "LineHeight::to_absolute", "mul div 100", "line_height_ok");
   ("src/text/text.rs", "Transform for Text::translate", "add", "point_add_ok");
   ("src/text/text.rs", "Transform for Text::translate_mut", "add=", "point_add_ok");
-  ("src/text/text.rs", "Text::line_height", ".saturating_as", "line_height_ok");
+  ("src/text/text.rs", "Text::line_height", ".to_absolute( ) .saturating_as", "line_height_ok");
   ("src/text/text.rs", "Text::lines", "sub ( sub 1 0 ) sub ( sub 1 0 ) div 2 add= ( )", "text_line_ok");
+  ("src/image/mod.rs", "Transform for Image::translate", "add", "point_add_ok");
+  ("src/image/mod.rs", "Transform for Image::translate_mut", "add=", "point_add_ok");
   ("src/image/image_raw.rs", "ImageRaw::new", "mul as:usize", "image_new_ok");
   ("src/image/image_raw.rs", "ImageRaw::new_const", "panic!", "image_new_const_ok");
-  ("src/image/image_raw.rs", "ImageRaw::data_width", "8 8 div as:u32 as:u32 mul", "data_width_ok");
+  ("src/image/image_raw.rs", "ImageRaw::data_width", "cmp:< 8 8 div as:u32 as:u32 mul", "data_width_ok");
   ("src/image/image_raw.rs", "bytes_per_row", "( as:usize mul add 7 ) div 8", "bytes_per_row_ok");
   ("src/image/image_raw.rs", "ImageDrawable for ImageRaw::draw", "sub 0 as:usize", "image_draw_ok");
-  ("src/image/image_raw.rs", "ImageDrawable for ImageRaw::draw_sub_image", "0 0 as:u32 add as:u32 add ( ) as:usize as:usize mul add as:usize sub as:usize", "image_draw_sub_ok");
-  ("src/image/image_raw.rs", "GetPixel for ImageRaw::pixel", "0 0 as:i32 as:i32 as:usize add as:usize mul as:usize", "image_pixel_ok");
-  ("src/image/image_raw.rs", "ContiguousPixels::new", "0 sub 1 0 .saturating_sub( 1 ) 0 0 0", "cpix_new_ok");
-  ("src/image/image_raw.rs", "Iterator for ContiguousPixels::next", "0 sub= 1 0 sub= 1 sub 1", "cpix_next_ok");
-  ("src/iterator/contiguous.rs", "Cropped::new", "as:usize mul as:usize add as:usize 0 sub 1 0 0 .saturating_sub( ) as:usize", "cropped_new_ok");
-  ("src/iterator/contiguous.rs", "Iterator for Cropped::next", "0 add= 1 1 add= 1", "cropped_next_ok")
+  ("src/image/image_raw.rs", "ImageDrawable for ImageRaw::draw_sub_image", "cmp:< 0 cmp:< 0 as:u32 add as:u32 add ( ) as:usize as:usize mul add as:usize sub as:usize", "image_draw_sub_ok");
+  ("src/image/image_raw.rs", "GetPixel for ImageRaw::pixel", "cmp:< 0 cmp:< 0 as:i32 as:i32 .nth( as:usize add as:usize mul as:usize )", "image_pixel_ok");
+  ("src/image/image_raw.rs", "ContiguousPixels::new", "cmp:> 0 .nth( sub 1 ) cmp:> 0 .saturating_sub( 1 ) 0 cmp:> 0 0", "cpix_new_ok");
+  ("src/image/image_raw.rs", "Iterator for ContiguousPixels::next", "cmp:> 0 sub= 1 cmp:== 0 sub= 1 sub 1 .nth( )", "cpix_next_ok");
+  ("src/iterator/contiguous.rs", "Cropped::new", "as:usize mul as:usize add as:usize cmp:> 0 .nth( sub 1 ) 0 0 .saturating_sub( ) as:usize", "cropped_new_ok");
+  ("src/iterator/contiguous.rs", "Iterator for Cropped::next", "cmp:== 0 add= 1 1 add= 1 .nth( )", "cropped_next_ok");
+  ("src/iterator/pixel.rs", "Iterator for Translated::next", "add", "by reference: C08_targets (Model/TargetOk.v); point + offset = point_add_ok");
+  ("src/iterator/raw.rs", "Iterator for RawDataIterator::next", "add= 1", "by reference: C08_raw (Proofs/RawOverflow.v site lists)");
+  ("src/iterator/raw.rs", "Iterator for RawDataIterator::nth", ".saturating_add( )", "by reference: C08_raw (Proofs/RawOverflow.v site lists)");
+  ("src/iterator/raw.rs", "Iterator for RawDataIterator::size_hint", "cmp:>= 8 div ( div 8 ) mul ( 8 div ) .saturating_sub( ) ( )", "by reference: C08_raw (Proofs/RawOverflow.v site lists)");
+  ("src/draw_target/clipped.rs", "DrawTarget for Clipped::fill_contiguous", "neg", "by reference: C08_targets (Model/TargetOk.v)");
+  ("src/draw_target/translated.rs", "Dimensions for Translated::bounding_box", "neg", "by reference: C08_targets (Model/TargetOk.v)");
+  ("src/framebuffer.rs", "buffer_size_bpp", "( mul add 7 ) div 8 mul", "by reference: C08_raw (Proofs/RawOverflow.v, Proofs/Framebuffer.v)");
+  ("src/framebuffer.rs", "const WIDTH", "( ) assert! 0 index 0 as:u32 as:u32 .unwrap ( ) ( ) ( usize::try_from( ) usize::try_from( ) ) 8 div mul ( add 7 ) div 8 mul add ( div ) ( rem ) mul 8 sub ( rem add 1 ) mul ( 2u8 .pow( as:u32 ) sub 1 ) shl shl index index prefixadd ( ) shr ( )", "by reference: C08_raw (Proofs/RawOverflow.v, Proofs/Framebuffer.v)");
+  ("src/framebuffer.rs", "Framebuffer::set_pixel", "( ) ( usize::try_from( ) usize::try_from( ) ) as:usize as:usize index mul add", "by reference: C08_raw (Proofs/RawOverflow.v, Proofs/Framebuffer.v)");
+  ("src/framebuffer.rs", "macro impl_bytes", "( ) div 8 ( ) ( usize::try_from( ) usize::try_from( ) ) as:usize as:usize ( mul add ) mul index add .copy_from_slice( ) prefixadd ( ) shr ( ) ( )", "by reference: C08_raw (Proofs/RawOverflow.v, Proofs/Framebuffer.v)");
+  ("src/framebuffer.rs", "OriginDimensions for Framebuffer::size", "as:u32 as:u32", "by reference: C08_raw (Proofs/RawOverflow.v, Proofs/Framebuffer.v)")
 ].
 
 Definition unmodelled_fns : list (string * string) := [
